@@ -76,6 +76,7 @@ def make_device(name, beh, ctx):
                 loop.advance(cost)
             if beh.get("fail_at") is not None and beh["fail_at"] == n:
                 ev["raises"] = True
+                ctx["trace"].log("probe-raised", comp=name, hook="device", idx=n)
                 raise ProbeFailure(f"probe-fail:{name}:{n}")
             outs = {}
             if beh.get("relay"):
@@ -130,6 +131,7 @@ def make_adapter(comp_name, idx, beh, ctx):
             self.n += 1
             ctx["trace"].log("after_update", comp=comp_name, adapter=idx, idx=n)
             if beh.get("adapter_fail_at") is not None and beh["adapter_fail_at"] == n and idx == 0:
+                ctx["trace"].log("probe-raised", comp=comp_name, hook="adapter", idx=n)
                 raise ProbeFailure(f"probe-adapter-fail:{comp_name}:{n}")
 
     class ProbeIo(AdapterIo):
@@ -152,8 +154,10 @@ def make_adapter(comp_name, idx, beh, ctx):
     return AdapterContainer(ProbeAdapter(), ProbeIo())
 
 
-def make_epics_adapter(comp_name, ctx):
-    """the shipped EpicsAdapter class driven without a network: record setters are recorders"""
+def make_epics_adapter(comp_name, ctx, beh=None):
+    """the shipped EpicsAdapter class driven without a network: record setters are recorders.  `epics_fail_at` = n with
+    `epics_fail_where` = "getter" | "set": the linked getter / the record's setter raises when called for the n-th update"""
+    beh = beh or {}
     from tickit.adapters.epics import EpicsAdapter, InputRecord
     from tickit.core.adapter import AdapterContainer, AdapterIo
 
@@ -165,10 +169,16 @@ def make_epics_adapter(comp_name, ctx):
     counter = {"n": 0}
 
     def setter(v, name=comp_name):
+        if beh.get("epics_fail_where") == "set" and beh.get("epics_fail_at") == counter["n"] - 1:
+            ctx["trace"].log("probe-raised", comp=name, hook="epics-set", idx=counter["n"] - 1)
+            raise ProbeFailure(f"probe-adapter-fail:{name}:{counter['n'] - 1}")
         ctx["trace"].log("record-set", comp=name, value=v)
 
     def getter():
         counter["n"] += 1
+        if beh.get("epics_fail_where") == "getter" and beh.get("epics_fail_at") == counter["n"] - 1:
+            ctx["trace"].log("probe-raised", comp=comp_name, hook="epics-getter", idx=counter["n"] - 1)
+            raise ProbeFailure(f"probe-adapter-fail:{comp_name}:{counter['n'] - 1}")
         return counter["n"]
 
     rec = InputRecord(f"{comp_name}:REC", setter, lambda: None)
@@ -226,7 +236,7 @@ def build_component(comp, ctx):
         beh = comp.get("beh", {})
         adapters = [make_adapter(comp["name"], i, beh, ctx) for i in range(beh.get("n_adapters", 1))]
         if beh.get("epics"):
-            adapters.append(make_epics_adapter(comp["name"], ctx))
+            adapters.append(make_epics_adapter(comp["name"], ctx, beh))
         if beh.get("command"):
             adapters.append(make_command_adapter(comp["name"], ctx))
         dc = DeviceComponent(name=comp["name"], device=make_device(comp["name"], beh, ctx), adapters=adapters)
